@@ -165,16 +165,18 @@ class Lin:
 
 class Vec:
     """Element-wise vector over a finite index set (status table rows)."""
-    __slots__ = ("vals", "frozen")
+    __slots__ = ("vals", "frozen", "dtype")
 
     def __init__(self, vals):
         self.vals = list(vals)
         self.frozen = False
+        self.dtype = None
 
     @staticmethod
-    def view(row: list) -> "Vec":
+    def view(row: list, dtype=None) -> "Vec":
         v = Vec([])
         v.vals = row            # shares storage with the row it was taken from (numpy view semantics)
+        v.dtype = dtype
         return v
 
     @staticmethod
@@ -230,6 +232,7 @@ class Mat(Obj):
     def __init__(self, rows: List[List[Any]]):
         super().__init__("Mat")
         self.rows = rows
+        self.dtype = None
         self.methods = {
             "flatten": lambda ev, call, args, kw: [x for r in self.rows for x in r],
             "tolist": lambda ev, call, args, kw: [list(r) for r in self.rows],
@@ -271,7 +274,7 @@ class Mat(Obj):
         if isinstance(idx, int) and not isinstance(idx, bool):
             if not 0 <= idx < len(self.rows):
                 raise IndexOut(idx, len(self.rows), node)
-            return Vec.view(self.rows[idx])
+            return Vec.view(self.rows[idx], self.dtype)
         if isinstance(idx, tuple) and len(idx) == 2 and all(isinstance(i, int) and not isinstance(i, bool) for i in idx):
             if not (0 <= idx[0] < len(self.rows) and 0 <= idx[1] < len(self.rows[idx[0]])):
                 raise IndexOut(idx, len(self.rows), node)
@@ -365,6 +368,19 @@ class Mat(Obj):
 
     def __hash__(self):
         return id(self)
+
+
+INT_DTYPE_RANGE = {"int8": (-128, 127), "uint8": (0, 255), "int16": (-32768, 32767), "uint16": (0, 65535),
+                   "int32": (-2 ** 31, 2 ** 31 - 1), "uint32": (0, 2 ** 32 - 1), "int64": (-2 ** 63, 2 ** 63 - 1),
+                   "uint64": (0, 2 ** 64 - 1)}
+
+
+def check_dtype(dtype, value, node):
+    """numpy (>= 2) refuses to store a python integer that the array's integer type cannot hold."""
+    if dtype in INT_DTYPE_RANGE and isinstance(value, int) and not isinstance(value, bool):
+        lo, hi = INT_DTYPE_RANGE[dtype]
+        if not lo <= value <= hi:
+            raise AbsRaise("OverflowError", node)
 
 
 NUMPY_PRINT_THRESHOLD = 1000     # numpy.get_printoptions()['threshold']: larger arrays are summarised with '...'
@@ -1335,6 +1351,7 @@ class Evaluator:
                     if not (0 <= idx0[0] < len(base.rows) and 0 <= idx0[1] < len(base.rows[idx0[0]])):
                         raise IndexOut(idx0, len(base.rows), stmt)
                     self._concrete_store(base.rows[idx0[0]], idx0[1], op, value, stmt)
+                    check_dtype(base.dtype, base.rows[idx0[0]][idx0[1]], stmt)
                     return
             if isinstance(base, Mat) and op == "=":
                 idx = self.ev(target.slice)
@@ -1387,6 +1404,8 @@ class Evaluator:
             if done:
                 return
         seq[idx] = value if op == "=" else _arith(binop, seq[idx], value, stmt)
+        if isinstance(base, Vec) and base.dtype is not None:
+            check_dtype(base.dtype, seq[idx], stmt)
 
     def _alias_key(self, t: ast.AST):
         if isinstance(t, ast.Name):
